@@ -6,10 +6,11 @@ use wow_wdt::{tile_to_world, world_to_tile};
 /// side of one ADT tile in yards: 1600/3 (documented as 533.33333)
 pub const TILE: f64 = 1600.0 / 3.0;
 
-/// interior fractions (distance from the tile's corner in tile units) used for the
-/// "point inside the tile" check; all at least 1/8 tile (66 yards) away from any boundary,
-/// five orders of magnitude more than f32 rounding at |w| <= 17067.
-pub const FRACTIONS: [f64; 5] = [0.5, 0.125, 0.875, 0.25, 0.75];
+/// interior points (fx, fy) = distance from the tile's corner in tile units along tile_x /
+/// tile_y: the exact centre plus four off-centre points whose two axes differ; all at least
+/// 1/8 tile (66 yards) away from any boundary, five orders of magnitude more than f32
+/// rounding at |w| <= 17067.
+pub const FRACTIONS: [(f64, f64); 5] = [(0.5, 0.5), (0.125, 0.875), (0.875, 0.125), (0.25, 0.75), (0.75, 0.25)];
 
 /// Independent formula for the corner of tile index `i` along one axis.
 pub fn corner_ref(i: u32) -> f64 {
@@ -129,10 +130,7 @@ pub fn run(check: &Check) {
             if let Err(f) = check_forward(x, y) {
                 check.fail(&f, json!({"kind":"coord-forward","x":x,"y":y}));
             }
-            for (k, &fx) in FRACTIONS.iter().enumerate() {
-                // pair every x-fraction with a different y-fraction so the two axes never
-                // carry the same value even on the diagonal
-                let fy = FRACTIONS[(k + 2) % FRACTIONS.len()];
+            for &(fx, fy) in FRACTIONS.iter() {
                 let (wx, wy) = interior_point(x, y, fx, fy);
                 if let Err(f) = check_point(x, y, wx, wy) {
                     check.fail(&f, json!({"kind":"coord-point","x":x,"y":y,"wx_bits":wx.to_bits(),"wy_bits":wy.to_bits()}));
